@@ -55,6 +55,7 @@ THEOREMS = [
     "Klong.C03.call_is_substitution",
     "Klong.C03.call_is_substitution_var",
     "Klong.C03.call_is_substitution_at",
+    "Klong.C03.symbol_member_counterexample",
 ]
 
 FUEL = 1000
@@ -470,6 +471,13 @@ def gen_list(rng, nparams, depth):
     return ["cond", sub(), sub(), sub()]
 
 
+def _decl(rng, names):
+    """a local declaration in one of its two spellings: `[a b];` or `[a;b];`"""
+    if not names:
+        return ""
+    return "[" + (";" if rng.random() < 0.5 else " ").join(names) + "];"
+
+
 def uses_all(n, nparams):
     txt = json.dumps(n)
     return all(f'["p", "{p}"]' in txt for p in PARAMS[:nparams])
@@ -528,7 +536,7 @@ def case_subst(rng):
         stm = []
         body = gen_int(rng, n, 2, FUNS, log=use_log)
         if rng.random() < 0.5:
-            locals_ = ["t"]
+            locals_ = ["t"] if rng.random() < 0.5 else rng.choice([["t", "u"], ["u", "t"], ["u", "t", "w"]])
             stm.append(["asg", "t", gen_int(rng, n, 2, [], ops="+-", globs=False)])
             body = ["op2", "+", body, ["g", "t"]]
         if rng.random() < 0.6:
@@ -537,7 +545,7 @@ def case_subst(rng):
             for pp in PARAMS[:n]:
                 body = ["op2", "+", body, ["p", pp]]
         body = ["seq", stm + [body]] if stm else body
-    decl = f"[{' '.join(locals_)}];" if locals_ else ""
+    decl = _decl(rng, locals_)
     ftext = "{" + decl + render(body) + "}"
     stmts = list(PRELUDE) + pre + ["f::" + ftext]
     forms = []
@@ -761,7 +769,7 @@ def case_rec(rng):
         ]
         body = rng.choice(variants)
         stmts += ["a::1000", "b::2000"]
-    decl = f"[{' '.join(locals_)}];" if locals_ else ""
+    decl = _decl(rng, locals_)
     stmts.append("fs::{" + decl + render(body) + "}")
     stmts.append("fr::{" + decl + render(rename_self(body, "fr")) + "}")
     pairs = []
@@ -929,7 +937,7 @@ FRAME_POS = ["pre", "arg", "left", "right", "condtest", "condbranch", "post", "e
 CALL_STYLES = ["direct", "at", "eachatom", "eachlist", "var", "proj", "over"]
 
 
-def frame_fn(level, depth, pos, style, self_rec):
+def frame_fn(level, depth, pos, style, self_rec, sep=" "):
     """text of level function f<level>; `pos` (or None) is where the failing sub-expression sits"""
     nxt = level + 1
     if level == depth:
@@ -979,7 +987,7 @@ def frame_fn(level, depth, pos, style, self_rec):
         pre = f"newv::{b};"
     elif pos == "lastexpr":
         last = f"(t+a)+{b}"
-    return (f"f{level}::{{[a t];a::{a_rhs};g{level}::g{level}+1;{pre}t::{call};{post}g{level}::g{level}+10;{last}}}")
+    return (f"f{level}::{{[a{sep}t];a::{a_rhs};g{level}::g{level}+1;{pre}t::{call};{post}g{level}::g{level}+10;{last}}}")
 
 
 def case_frame(rng, depth=None, fail_level=None, pos=None):
@@ -990,7 +998,8 @@ def case_frame(rng, depth=None, fail_level=None, pos=None):
     self_rec = rng.random() < 0.3
     stmts = list(PRELUDE) + ["fail::0", "a::10", "b::20", "t::30", "g1::0", "g2::0", "g3::0"]
     for level in range(depth, 0, -1):
-        stmts.append(frame_fn(level, depth, pos if level == fail_level else None, styles[level - 1], self_rec))
+        stmts.append(frame_fn(level, depth, pos if level == fail_level else None, styles[level - 1], self_rec,
+                              sep=rng.choice(" ;")))
         if level > 1:
             st = styles[level - 2]
             if st == "var":
@@ -1022,6 +1031,11 @@ LOCAL_TEMPLATES = [
     (["f::{[h];h::{x*2};h(x)+1}", "f(3)"], {1: 7}, {}, ["h"]),
     (["h::{x+1}", "f::{[h];h::{x*2};h(x)}", "f(3)", "h(3)"], {2: 6, 3: 4}, {}, []),
     (["a::1", "b::2", "f::{[a b];a::x;b::y;(10*a)+b}", "f(3;4)", "a", "b"], {3: 34, 4: 1, 5: 2}, {"a": 1, "b": 2}, []),
+    (["a::1", "b::2", "f::{[a;b];a::x;b::y;(10*a)+b}", "f(3;4)", "a", "b"], {3: 34, 4: 1, 5: 2}, {"a": 1, "b": 2}, []),
+    (["a::1", "b::2", "c::3", "f::{[a;b;c];a::x;b::a+1;c::b+1;a+b+c}", "f(3)", "a", "b", "c"], {4: 12, 5: 1, 6: 2, 7: 3},
+     {"a": 1, "b": 2, "c": 3}, []),
+    (["sumto::{[a;b];a::x;b:::[x;.f(x-1);0];a+b}", "sumto(4)", "a::7", "sumto(3)", "a"], {1: 10, 3: 6, 4: 7}, {"a": 7}, ["b"]),
+    (["a::5", "g::{[a;t];a::x;t::a*2;t}", "f::{[a;b];a::x;b::g(a+1);a+b}", "f(2)", "a"], {3: 8, 4: 5}, {"a": 5}, ["b", "t"]),
     (["a::1", "f::{[a];a::x;boom(x)}", "f(9)", "a"], {3: 1}, {"a": 1}, []),
     (["a::1", "f::{[a];a::x;inc(boom(x))}", "g::{[b];b::x;f(b)+1}", "g(9)", "a", "b"], {4: 1}, {"a": 1}, ["x", "y", ".f"]),
     (["f::{[a];a::x;:[x;.f(x-1);0];a}", "f(3)"], {1: 3}, {}, ["a"]),
@@ -1051,7 +1065,7 @@ def case_locals(rng):
     fail = rng.random() < 0.3
     if fail:
         body.insert(rng.randrange(len(body) + 1), "boom(x)")
-    decl = f"[{' '.join(locs)}];" if locs else ""
+    decl = _decl(rng, locs)
     stmts = list(PRELUDE) + ["a::10", "b::20", "f::{" + decl + ";".join(body) + "}"]
     call = len(stmts)
     stmts.append("f(" + ";".join(lit_text(rng.choice(ARG_INTS)) for _ in range(n)) + ")")
@@ -1146,6 +1160,51 @@ def case_adverb(rng):
     stmts.append(text)
     return dict(kind="adverb", stmts=stmts, meta=dict(form=form, monad=monad, m=m, neutral=neutral, ndefs=ndefs,
                                                        spelling=spelling, shape=shape, body=body))
+
+
+# ---- symbol-valued arguments
+
+def case_symbols(rng):
+    """the identity (or second-argument) function applied to SYMBOL values: as a quoted literal, held in a
+    variable, as list members reached through Each / Over / @.  Expected: the symbol itself."""
+    stmts = list(PRELUDE) + ["idf::{x}", "sec::{y}"]
+    a_defined = rng.random() < 0.6
+    if a_defined:
+        stmts.append("a::" + lit_text(rng.choice([5, [1, 2], "abc"])))
+    stmts.append("sv:::q")                 # a symbol held in a variable (q is not a variable yet)
+    if rng.random() < 0.5:
+        stmts.append("q::9")
+    ndefs = len(stmts)
+    checks = []
+
+    def y(name):
+        return "(y " + " ".join(str(ord(c)) for c in name) + ")"
+
+    for _ in range(rng.randrange(3, 7)):
+        form = rng.choice(["each", "at", "over", "atvar", "directvar", "quoted", "eachparam"])
+        names = [rng.choice(["a", "b"]) for _ in range(rng.randrange(1, 3))]
+        if form == "each":
+            text, want, kind = "idf'[" + " ".join(":" + n for n in names) + "]", "(lit (L " + " ".join(y(n) for n in names) + "))", "member"
+        elif form == "eachparam":
+            text, want, kind = "{x'y}(idf;[" + " ".join(":" + n for n in names) + "])", "(lit (L " + " ".join(y(n) for n in names) + "))", "member"
+        elif form == "at":
+            names = names[:1]
+            text, want, kind = f"idf@[:{names[0]}]", f"(sym {names[0]})", "member"
+        elif form == "over":
+            names = names[:1]
+            text, want, kind = f"sec/[1 :{names[0]}]", f"(sym {names[0]})", "member"
+        elif form == "atvar":
+            names = ["q"]
+            text, want, kind = "idf@sv", "(sym q)", "member"
+        elif form == "directvar":
+            names = ["q"]
+            text, want, kind = "idf(sv)", "(sym q)", "held"
+        else:
+            names = names[:1]
+            text, want, kind = f"idf(:{names[0]})", f"(sym {names[0]})", "literal"
+        checks.append(dict(i=len(stmts), want="ok " + want, names=names, kind=kind))
+        stmts.append(text)
+    return dict(kind="symbols", stmts=stmts, meta=dict(ndefs=ndefs, checks=checks))
 
 
 # --------------------------------------------------------------------------- oracles
@@ -1560,7 +1619,32 @@ class _Stop(Exception):
     pass
 
 
-ORACLES = dict(history=oracle_history, adverb=oracle_adverb, subst=oracle_subst, rec=oracle_rec, proj=oracle_proj, cond=oracle_cond, frame=oracle_frame,
+def oracle_symbols(ctx, case, obs):
+    m = case["meta"]
+    if not _ok_prefix(obs, m["ndefs"]):
+        ctx.bump("gen-reject:" + case["kind"])
+        return
+    for c in m["checks"]:
+        o = obs[c["i"]]
+        if o["out"] == c["want"]:
+            ctx.bump("oracle:symbols:" + c["kind"])
+            continue
+        # which of the symbols named a variable holding something else than the symbol itself?
+        defined = [n for n in c["names"] if n in o["before"] and o["before"][n] != f"(sym {n})"]
+        if defined and c["kind"] == "member":
+            key = "subst:symbol-member-defined"
+        elif defined and c["kind"] == "literal":
+            key = "subst:symbol-literal-defined"
+        else:
+            key = "subst:symbol-argument"
+        ctx.oracle_fail(key, dict(case=_js(case), text=o["text"]), c["want"], o["out"],
+                        "a symbol passed to the identity function does not come back as itself"
+                        + (f" (it names the defined variable {defined})" if defined else ""))
+        if key == "subst:symbol-argument":
+            return
+
+
+ORACLES = dict(history=oracle_history, adverb=oracle_adverb, symbols=oracle_symbols, subst=oracle_subst, rec=oracle_rec, proj=oracle_proj, cond=oracle_cond, frame=oracle_frame,
                locals=oracle_locals, hand=None)
 
 
@@ -1769,6 +1853,8 @@ WITNESSES = [
     ("proj:multi-step", ["f::{(100*x)+(10*y)+z}", "g::f(1;;)", "h::g(;3)", "h(2)"], {3: 123}),
     ("proj:list-arg", ["f::{x,y}", "g::f(;[1 2])", "g(3)"], {2: [3, 1, 2]}),
     ("dotf:locals", ["f::{[a];a::x;:[x;.f(x-1);0];a}", "f(3)"], {1: 3}),
+    ("locals:semicolon-declaration", ["a::1", "b::2", "f::{[a;b];a::x;b::y;(10*a)+b}", "f(3;4)", "a", "b",
+                                      "sumto::{[a;b];a::x;b:::[x;.f(x-1);0];a+b}", "sumto(4)", "a"], {3: 34, 4: 1, 5: 2, 7: 10, 8: 1}),
     ("dotf:tail-args", ["s::{:[x;.f(x-1;y+x);y]}", "s(4;0)", "fib::{:[x;.f(x-1;z;y+z);y]}", "fib(10;0;1)",
                         "rot::{:[x;.f(x-1;z;y);y,z]}", "rot(3;1;2)", "s@[4 0]", "q::s(;0)", "q(4)"],
      {1: 10, 3: 55, 5: [2, 1], 6: 10, 8: 10}),
@@ -1830,6 +1916,10 @@ def run(ctx):
         "call_is_substitution (+_var, _at) is proved for the first-order body grammar Body (data, parameters, global "
         "data variables, monads, dyads other than @, conditionals); bodies with nested calls, calls as adverb verbs and "
         "recursion through .f are covered by the substitution oracle and the correspondence only",
+        "call_is_substitution_at holds for members that are not symbols: a symbol handed to a function as a list "
+        "member through an adverb or @ (or written as a quoted literal) is evaluated as a variable when the frame is "
+        "built (known findings subst:symbol-member-defined / subst:symbol-literal-defined, witness "
+        "symbol_member_counterexample by decide)",
         "projection_one_step / projection_any_order assume Stable (the two spare _resolve_fn passes leave the body "
         "alone): true for operator, conditional, program and data bodies, false for a body that is a bare parameter "
         "bound to a function in the caller's frame (function-valued arguments are outside the value universe)",
@@ -1863,6 +1953,8 @@ def run(ctx):
             run_case(ctx, drv, case_adverb(rng))
         for _ in range(250 if quick else 5000):
             run_case(ctx, drv, case_values(rng))
+        for _ in range(60 if quick else 1500):
+            run_case(ctx, drv, case_symbols(rng))
         for _ in range(3 if quick else 40):
             run_case(ctx, drv, case_history(rng, rng.randrange(70, 110) if quick else rng.randrange(60, 200)))
         # failing sub-expression: every (depth, failing level, position), call styles sampled
